@@ -114,7 +114,8 @@ func parseProxyBook(bookEntries map[string][]string) (map[string]net.Addr, error
 func ParseConfig(conf string) (raw RawConfig, err error) {
 	content, errPath := ioutil.ReadFile(conf)
 	if errPath != nil {
-		errJson := json.Unmarshal(content, &raw)
+		// not a readable file: the argument is the configuration itself
+		errJson := json.Unmarshal([]byte(conf), &raw)
 		if errJson != nil {
 			err = fmt.Errorf("failed to read/unmarshal configuration, path is invalid or %v", errJson)
 			return
